@@ -2,7 +2,9 @@
  0 add_node n attrs | 1 add_nodes_from ns attrs | 2 add_edge u v et attrs | 3 add_edges_from [[u,v,attrs]..] et
  4 remove_node n | 5 remove_nodes_from ns | 6 remove_edge u v et | 7 remove_edges_from [[u,v]..] et | 8 clear_edges et
  9 add_edge_type name kind [[u,v]..] | 10 remove_edge_type name | 11 graph.update attrs | 12 copy | 13 subgraph ns
- 14 clear
+ 14 clear | 15 G.nodes[n].update(attrs) | 16 G.get_graphs(name).edges[u,v].update(attrs): [16,o,u,v,name,attrs]
+ 17 update(edges=[[u,v,attrs]..], nodes=ns, edge_type=et): [17,o,ns,es,et]
+ et 10..14: the EdgeType enum member DIRECTED/BIDIRECTED/UNDIRECTED/CIRCLE/ALL instead of its string (unknown edge type)
  bulk ops (1, 3, 5, 7, 13) take an optional trailing container flavour: 0 list, 1 tuple, 2 generator, 3 set, 4 frozenset,
  5 dict keys (where hashable), 6 str of one-character labels (else list);
  their element lists may be empty, contain duplicates (also {u,v} / {v,u} twice) and absent elements
@@ -59,7 +61,7 @@ def _attrs(rng, p=0.4):
     return [[k, rng.randint(0, 3)] for k in ks]
 
 
-def random_history(rng, cls, length, N=4, max_objs=4):
+def random_history(rng, cls, length, N=4, max_objs=4, enum=0.03):
     """random walk with a light shadow of each object's layers, biased to the interleavings the property names"""
     layers = [set([0, 1, 2]) if cls else set()]      # per object: layer names believed present
     ops = []
@@ -92,6 +94,8 @@ def random_history(rng, cls, length, N=4, max_objs=4):
         return items
 
     def sel(o, p_all=0.25, p_absent=0.08):
+        if rng.random() < enum:
+            return rng.choice([10, 10, 11, 12, 13, 14])
         r = rng.random()
         if r < p_all:
             return ALL
@@ -112,8 +116,17 @@ def random_history(rng, cls, length, N=4, max_objs=4):
             if op[0] == 9:
                 layers[op[1]].add(op[2])
             continue
-        if r < 0.08:
+        if r < 0.06:
             op = [0, o, node(), _attrs(rng)]
+        elif r < 0.08:
+            if rng.random() < 0.6:
+                op = [15, o, node(), _attrs(rng, 1.0)]
+            elif recent:
+                ro, u, v, t = rng.choice(recent)
+                op = [16, ro, u, v, t if t < 4 else rng.randrange(4), _attrs(rng, 1.0)]
+            else:
+                op = [17, o, sorted(rng.sample(range(N), rng.randint(0, 2))),
+                      [[*pair(), _attrs(rng, 0.3)] for _ in range(rng.randint(0, 2))], sel(o)]
         elif r < 0.12:
             op = [1, o, bulk(sorted(rng.sample(range(N), rng.randint(1, 3)))), _attrs(rng, 0.2), flav()]
         elif r < 0.34:
